@@ -106,12 +106,21 @@ def _prod(xs):
 class NdArr(AbsVal):
     is_array = True
 
-    def __init__(self, shape, data, sp=(), interp=None):
+    def __init__(self, shape, data, sp=(), trail=()):
         self.shape = tuple(int(s) for s in shape)
         self.data = list(data)
         self.sp = tuple(sp)
-        if len(self.data) != _prod(self.shape):
-            raise AnalysisError(f"NdArr: {len(self.data)} elements for shape {self.shape}")
+        # explicit dims *after* the spatial block (e.g. arr[..., None]); data is laid out
+        # row-major over shape + trail
+        self.trail = tuple(int(s) for s in trail)
+        if self.trail and not self.sp:
+            self.shape, self.trail = self.shape + self.trail, ()
+        if len(self.data) != _prod(self.shape) * _prod(self.trail):
+            raise AnalysisError(f"NdArr: {len(self.data)} elements for shape {self.shape}+{self.trail}")
+
+    def _no_trail(self, what):
+        if self.trail:
+            raise AnalysisError(f"{what} on an array with explicit dims after the spatial block")
 
     # ------------------------------------------------------------ builders
     @staticmethod
@@ -149,14 +158,17 @@ class NdArr(AbsVal):
         return NdArr(sh, flat, sp)
 
     def full_shape(self):
-        return self.shape + tuple(d.size_rat() for d in self.sp)
+        return self.shape + tuple(d.size_rat() for d in self.sp) + self.trail
 
     @property
     def ndim(self):
-        return len(self.shape) + len(self.sp)
+        return len(self.shape) + len(self.sp) + len(self.trail)
 
     def map(self, f):
-        return NdArr(self.shape, [f(x) for x in self.data], self.sp)
+        return NdArr(self.shape, [f(x) for x in self.data], self.sp, self.trail)
+
+    def dims(self):
+        return [("e", s) for s in self.shape] + [("s", d) for d in self.sp] + [("e", s) for s in self.trail]
 
     def nested(self):
         def build(off, shape):
@@ -168,7 +180,7 @@ class NdArr(AbsVal):
         return build(0, self.shape)
 
     def __repr__(self):
-        return f"NdArr{self.shape}+{list(self.sp)}"
+        return f"NdArr{self.shape}+{list(self.sp)}" + (f"+{self.trail}" if self.trail else "")
 
     # ------------------------------------------------------------ protocol
     def av_getattr(self, name):
@@ -306,27 +318,6 @@ def _scalar_binop(op, x, y):
 # ---------------------------------------------------------------------------
 
 
-def _align_sp(a: NdArr, b: NdArr):
-    """Return (result_sp, shifts_a, shifts_b): per spatial dim the shift to apply to the
-    elements of a / b so that both are expressed at the result window's positions."""
-    if not a.sp:
-        return b.sp, None, None
-    if not b.sp:
-        return a.sp, None, None
-    if len(a.sp) != len(b.sp):
-        raise Raised("ValueError", f"operands could not be broadcast together: spatial ranks {len(a.sp)} vs {len(b.sp)}")
-    res, sa, sb = [], [], []
-    for da, db in zip(a.sp, b.sp):
-        if da.axis != db.axis or not da.same_size(db):
-            raise Raised("ValueError", f"operands could not be broadcast together: {da!r} vs {db!r}")
-        # choose the window closest to the base domain as the label of the result
-        pick = da if abs(da.lo) <= abs(db.lo) else db
-        res.append(pick)
-        sa.append(da.lo - pick.lo)
-        sb.append(db.lo - pick.lo)
-    return tuple(res), sa, sb
-
-
 def _shift_all(v, sp, shifts):
     if shifts is None:
         return v
@@ -337,46 +328,76 @@ def _shift_all(v, sp, shifts):
 
 
 def elementwise(f, a: NdArr, b: NdArr) -> NdArr:
-    sp, sa, sb = _align_sp(a, b)
-    # numpy right-aligns the *full* shapes: explicit dims of an operand without
-    # spatial dims align against the other's spatial dims
-    if a.sp and not b.sp and b.shape:
-        b = _absorb_trailing(b, len(a.sp), a.sp)
-    elif b.sp and not a.sp and a.shape:
-        a = _absorb_trailing(a, len(b.sp), b.sp)
-    sha, shb = a.shape, b.shape
-    n = max(len(sha), len(shb))
-    pa = (1,) * (n - len(sha)) + sha
-    pb = (1,) * (n - len(shb)) + shb
-    out = []
+    """numpy broadcasting over the full dim lists (explicit lead, spatial block, explicit trail).
+    A symbolic spatial size only unifies with itself or with an explicit 1."""
+    da, db = a.dims(), b.dims()
+    n = max(len(da), len(db))
+    pa = [None] * (n - len(da)) + da
+    pb = [None] * (n - len(db)) + db
+    res = []  # result dims
+    sa, sb = [], []  # shifts per spatial result dim
     for x, y in zip(pa, pb):
-        if x == y or y == 1:
-            out.append(x)
-        elif x == 1:
-            out.append(y)
+        if x is None:
+            x = ("e", 1)
+        if y is None:
+            y = ("e", 1)
+        if x[0] == "e" and y[0] == "e":
+            if x[1] == y[1] or y[1] == 1:
+                res.append(("e", x[1]))
+            elif x[1] == 1:
+                res.append(("e", y[1]))
+            else:
+                raise Raised("ValueError", f"operands could not be broadcast together with shapes {a.full_shape()} {b.full_shape()}")
+        elif x[0] == "s" and y[0] == "s":
+            dx, dy = x[1], y[1]
+            if dx.axis != dy.axis or not dx.same_size(dy):
+                raise Raised("ValueError", f"operands could not be broadcast together: {dx!r} vs {dy!r} in shapes {a.full_shape()} {b.full_shape()}")
+            pick = dx if abs(dx.lo) <= abs(dy.lo) else dy
+            res.append(("s", pick))
+            sa.append(dx.lo - pick.lo)
+            sb.append(dy.lo - pick.lo)
         else:
-            raise Raised("ValueError", f"operands could not be broadcast together with shapes {a.full_shape()} {b.full_shape()}")
-    res = []
-    for ix in itertools.product(*[range(s) for s in out]):
-        ia = _flat_index(pa, [i if s != 1 else 0 for i, s in zip(ix, pa)])
-        ib = _flat_index(pb, [i if s != 1 else 0 for i, s in zip(ix, pb)])
-        xa = _shift_all(a.data[ia], a.sp, sa)
-        xb = _shift_all(b.data[ib], b.sp, sb)
-        res.append(f(xa, xb))
-    return NdArr(tuple(out), res, sp)
+            e, sdim = (x, y) if x[0] == "e" else (y, x)
+            if e[1] != 1:
+                raise Raised(
+                    "ValueError",
+                    f"operands could not be broadcast together: explicit size {e[1]} against symbolic spatial size {sdim[1]!r} (shapes {a.full_shape()} {b.full_shape()})",
+                )
+            res.append(("s", sdim[1]))
+            sa.append(0)
+            sb.append(0)
+    kinds = [k for k, _ in res]
+    s_idx = [i for i, k in enumerate(kinds) if k == "s"]
+    if s_idx and s_idx != list(range(s_idx[0], s_idx[-1] + 1)):
+        raise AnalysisError("broadcast result with a non-contiguous spatial block")
+    lead = [d for i, (k, d) in enumerate(res) if k == "e" and (not s_idx or i < s_idx[0])]
+    trail = [d for i, (k, d) in enumerate(res) if k == "e" and s_idx and i > s_idx[-1]]
+    sp = tuple(d for k, d in res if k == "s")
+    e_pos = [i for i, k in enumerate(kinds) if k == "e"]
 
+    def src_index(arr, padded, ix_by_pos):
+        # explicit dims of arr in order, with their position in the padded list
+        idx = []
+        shape = []
+        for pos, d in enumerate(padded):
+            if d is not None and d[0] == "e":
+                shape.append(d[1])
+                idx.append(ix_by_pos.get(pos, 0) if d[1] != 1 else 0)
+        return _flat_index(shape, idx) if shape else 0
 
-def _absorb_trailing(b: NdArr, k: int, sp):
-    """b has no spatial dims; its last k explicit dims face the other's spatial dims.
-    They must all be 1 (broadcast) — a concrete size never unifies with a symbolic one."""
-    tail = b.shape[-k:] if len(b.shape) >= k else b.shape
-    lead = b.shape[: len(b.shape) - len(tail)]
-    if any(t != 1 for t in tail):
-        raise Raised(
-            "ValueError",
-            f"operands could not be broadcast together: explicit dims {tail} against symbolic spatial dims {list(sp[-len(tail):])}",
-        )
-    return NdArr(lead, b.data, ())
+    sa_use = sa if a.sp and any(sa) else None
+    sb_use = sb if b.sp and any(sb) else None
+    out = []
+    for ix in itertools.product(*[range(res[i][1]) for i in e_pos]):
+        by_pos = dict(zip(e_pos, ix))
+        xa = a.data[src_index(a, pa, by_pos)]
+        xb = b.data[src_index(b, pb, by_pos)]
+        if sa_use is not None:
+            xa = _shift_all(xa, sp, sa)
+        if sb_use is not None:
+            xb = _shift_all(xb, sp, sb)
+        out.append(f(xa, xb))
+    return NdArr(tuple(lead), out, sp, tuple(trail))
 
 
 def _flat_index(shape, ix):
@@ -422,53 +443,48 @@ def getitem(a: NdArr, idx) -> NdArr:
     if isinstance(idx, NdArr):
         return _gather(a, idx)
     idx = _norm_index(idx, a.ndim)
-    ne = len(a.shape)
-    # explicit part
-    sel = []  # per explicit dim: list of indices or int
-    new_shape = []
+    ne, nsp = len(a.shape), len(a.sp)
+    full_e = a.shape + a.trail
+    sel = []  # per explicit source dim (lead then trail): list of indices
+    lead_shape, trail_shape = [], []
     new_sp = []
     pos = 0
-    out_axes = []  # layout of result explicit dims: ('new',) | ('dim', k)
     sp_ops = []
     for it_ in idx:
+        in_trail = nsp > 0 and pos >= ne + nsp
         if it_ is None:
-            out_axes.append(("new",))
+            (trail_shape if in_trail else lead_shape).append(1)
+            if not in_trail and ne <= pos < ne + nsp and pos != ne:
+                raise AnalysisError("newaxis inside the spatial block")
             continue
-        if pos < ne:
-            size = a.shape[pos]
+        if pos < ne or in_trail:
+            k = pos if pos < ne else pos - nsp
+            size = full_e[k]
+            tgt = trail_shape if in_trail else lead_shape
             i = _as_int(it_)
             if isinstance(i, int):
                 if not -size <= i < size:
                     raise Raised("IndexError", f"index {i} out of bounds for axis {pos} with size {size}")
                 sel.append([i % size])
-                out_axes.append(("drop", pos))
             elif isinstance(i, slice):
                 st = tuple(_as_int(x) for x in (i.start, i.stop, i.step))
                 if not all(x is None or isinstance(x, int) for x in st):
                     raise AnalysisError(f"symbolic slice {i} on explicit axis")
                 rng = list(range(size))[slice(*st)]
                 sel.append(rng)
-                out_axes.append(("dim", pos, len(rng)))
+                tgt.append(len(rng))
             elif isinstance(i, (list, tuple)):
                 rng = [int(_as_int(x)) % size for x in i]
                 sel.append(rng)
-                out_axes.append(("dim", pos, len(rng)))
+                tgt.append(len(rng))
             else:
                 raise AnalysisError(f"index {it_!r} on explicit axis {pos}")
         else:
-            d = a.sp[pos - ne]
-            sp_ops.append((d, it_))
+            sp_ops.append((a.sp[pos - ne], it_))
         pos += 1
-    # gather explicit
     data = []
     for ix in itertools.product(*sel) if sel else [()]:
-        data.append(a.data[_flat_index(a.shape, ix)] if a.shape else a.data[0])
-    shape = []
-    for ax in out_axes:
-        if ax[0] == "new":
-            shape.append(1)
-        elif ax[0] == "dim":
-            shape.append(ax[2])
+        data.append(a.data[_flat_index(full_e, ix)] if full_e else a.data[0])
     # spatial part
     post_shift = []
     for d, it_ in sp_ops:
@@ -487,11 +503,9 @@ def getitem(a: NdArr, idx) -> NdArr:
                 if st >= 0:
                     lo = d.lo + st
                 else:
-                    # start counted from the end: window [n+hi+st, ...)
                     new_sp.append(_end_window(d, st, sp_))
                     continue
             else:
-                # symbolic start/stop: a named region
                 new_sp.append(Dim(d.axis, d.n, 0, 0, region=("slice", _k(st), _k(sp_), d.lo)))
                 continue
             if sp_ is None:
@@ -500,7 +514,6 @@ def getitem(a: NdArr, idx) -> NdArr:
                 if sp_ < 0:
                     hi = d.hi + sp_
                 else:
-                    # absolute stop: window [lo, sp_) of fixed length
                     new_sp.append(Dim(d.axis, d.n, 0, 0, region=("fixed", lo, d.lo + sp_)))
                     continue
             else:
@@ -508,11 +521,12 @@ def getitem(a: NdArr, idx) -> NdArr:
                 continue
             new_sp.append(Dim(d.axis, d.n, lo, hi, region))
         elif isinstance(i, int):
-            # single cell: dimension dropped; elements now refer to that fixed position
             post_shift.append((d, i))
         else:
             raise AnalysisError(f"index {it_!r} on spatial axis")
-    res = NdArr(tuple(shape), data, tuple(new_sp))
+    if not new_sp and trail_shape:
+        lead_shape, trail_shape = lead_shape + trail_shape, []
+    res = NdArr(tuple(lead_shape), data, tuple(new_sp), tuple(trail_shape))
     if post_shift:
         res = res.map(lambda v: _fix_position(v, post_shift))
     return res
@@ -778,6 +792,8 @@ def reduce_axes(it, a: NdArr, axis, kind: str):
     else:
         axes = [int(_as_int(axis)) % nd]
     ne = len(a.shape)
+    if a.trail:
+        return _reduce_with_trail(it, a, axes, kind)
     e_axes = sorted(x for x in axes if x < ne)
     s_axes = sorted(x - ne for x in axes if x >= ne)
     cur = a
@@ -804,6 +820,60 @@ def reduce_axes(it, a: NdArr, axis, kind: str):
     if cur.ndim == 0:
         return cur.data[0]
     return cur
+
+
+def _reduce_with_trail(it, a: NdArr, axes, kind):
+    ne, nsp = len(a.shape), len(a.sp)
+    if any(x < ne + nsp for x in axes):
+        raise AnalysisError("reduction over lead/spatial axes of an array with trailing explicit dims")
+    t_axes = sorted(x - ne - nsp for x in axes)
+    full = a.shape + a.trail
+    keep_t = [i for i in range(len(a.trail)) if i not in t_axes]
+    out_shape_t = tuple(a.trail[i] for i in keep_t)
+    data = []
+    for lead_ix in itertools.product(*[range(s) for s in a.shape]):
+        for keep_ix in itertools.product(*[range(a.trail[i]) for i in keep_t]):
+            vals = []
+            for red_ix in itertools.product(*[range(a.trail[i]) for i in t_axes]):
+                tix = [0] * len(a.trail)
+                for i, v in zip(keep_t, keep_ix):
+                    tix[i] = v
+                for i, v in zip(t_axes, red_ix):
+                    tix[i] = v
+                vals.append(a.data[_flat_index(full, lead_ix + tuple(tix))])
+            data.append(_fold(it, vals, kind))
+    return NdArr(a.shape, data, a.sp, out_shape_t)
+
+
+def _fold(it, vals, kind):
+    if kind in ("sum", "mean"):
+        tot = vals[0]
+        for v in vals[1:]:
+            tot = _scalar_binop("add", tot, v)
+        return _scalar_binop("div", tot, len(vals)) if kind == "mean" else tot
+    if kind in ("argmin", "argmax"):
+        return Rat.atom(("call", kind) + tuple(to_rat(v) for v in vals))
+    raise AnalysisError(f"reduction {kind}")
+
+
+def arg_reduce(it, a: NdArr, axis, kind):
+    """argmin / argmax over one explicit axis: opaque atom over the candidates, in order."""
+    nd = a.ndim
+    if axis is None:
+        raise AnalysisError(f"{kind} without axis")
+    ax = int(_as_int(axis)) % nd
+    ne, nsp = len(a.shape), len(a.sp)
+    if ne <= ax < ne + nsp:
+        raise AnalysisError(f"{kind} over a spatial axis")
+    if a.trail:
+        return _reduce_with_trail(it, a, [ax], kind)
+    n = a.shape[ax]
+    shape = a.shape[:ax] + a.shape[ax + 1 :]
+    data = []
+    for ix in itertools.product(*[range(s) for s in shape]):
+        vals = [a.data[_flat_index(a.shape, ix[:ax] + (j,) + ix[ax:])] for j in range(n)]
+        data.append(_fold(it, vals, kind))
+    return NdArr(shape, data, a.sp)
 
 
 def squeeze(a: NdArr, axis=None):
@@ -1049,7 +1119,9 @@ ARR_EXT.update(
         "np.zeros_like": _x_zeros_like,
         "np.ones_like": _x_ones_like,
         "np.cross": _x_cross,
-        "lax.stop_gradient": lambda args, kw: args[0],
+        "lax.stop_gradient": lambda args, kw: lift(args[0]).map(lambda v: _INTERP.call_ext("lax.stop_gradient", [v], {})),
+        "np.argmin": lambda args, kw: arg_reduce(_INTERP, lift(args[0]), kw.get("axis", args[1] if len(args) > 1 else None), "argmin"),
+        "np.argmax": lambda args, kw: arg_reduce(_INTERP, lift(args[0]), kw.get("axis", args[1] if len(args) > 1 else None), "argmax"),
         "np.shape": lambda args, kw: lift(args[0]).full_shape(),
         "np.ndim": lambda args, kw: lift(args[0]).ndim,
     }
